@@ -32,7 +32,12 @@ def run(ctx):
     # the process-backed driver has its own copy of the filter (drivers/midicatdrv/in.go)
     from props import mcat
     fails += mcat.run_filter(ctx)
-    ctx.report(fails, lambda f: mcat.confirm_filter(ctx, f) if f.payload.get("family") == "mcat-filter" else live.confirm_factory(ctx)(f))
+    lcf = live.confirm_factory(ctx)
+
+    def confirm(f):
+        return mcat.confirm_filter(ctx, f) if f.payload.get("family") == "mcat-filter" else lcf(f)
+    confirm.in_context = lcf.in_context       # (only the live sessions carry a history)
+    ctx.report(fails, confirm)
 
 
 def replay(ctx, payload):
